@@ -8,7 +8,7 @@ VERIF = os.path.dirname(os.path.dirname(os.path.abspath(__file__)))
 CHECKS = {
  "C01": ("E-LOCKSTEP", "model_checking",
          "bounded-exhaustive lock-step enumeration of word / byte sequences on the real Generator against a declarative CTPH reference (every prefix compared)",
-         "Every sequence of the stated families (all sequences <=3 over a 36-symbol trigger-word alphabet from fresh and zero-prefix starts; run-structured two / three segment sequences with every count 1..66; all byte strings over {00,01,FF} to length 9/11; every constant byte and short pattern at every length) is fed through rotating update forms and additionally as ONE slice and through hash_buf; all three finalizations are compared with the reference after every step.  Reaches block index 30, bhidx_start 30, the fork limit and the last-piece hash.",
+         "Every sequence of the stated families (all sequences <=3 over a 44-symbol alphabet of trigger words, corner words with extreme / zero rolling-hash values and single bytes, from fresh, reused and zero-prefix starts; all pairs with the total declared first or between the chunks and every update form last; declarations around piece-rich data followed by long zero tails; run-structured two / three segment sequences with every count 1..66; all byte strings over {00,01,FF} to length 9/11; every constant byte and short pattern at every length) is fed through rotating update forms and additionally as ONE slice and through hash_buf; all three finalizations are compared with the reference after every step.  Reaches block index 30, bhidx_start 30, the fork limit and the last-piece hash.",
          "Trusted: refmodel::ctph (no fork / elimination / hint; bound to 472 libfuzzy vectors + 2 multi-GiB libfuzzy vectors on every run); hook H1 for zero-prefix starts (validated at start-up).  Inputs outside the families are not covered.",
          "DESIGN.md §4 C01"),
  "C02": ("E-ENUM", "model_checking",
@@ -38,7 +38,7 @@ CHECKS = {
          "DESIGN.md §4 C06"),
  "C07": ("E-ENUM", "model_checking",
          "bounded-exhaustive enumeration of raw hashes through six dual-construction routes (incl. dirty objects) and all pairs of a shared-normal-form corpus",
-         "Every raw hash of HASH (0..16 RLE symbols per block hash): the routes are ==, hash / order as equal, render identically, are valid, decompress (fresh and dirty destinations, text) to exactly the raw hash, expose its normalization; normalize_in_place gives the dual of the normalized hash; all pairs: a == b <=> raw equal.",
+         "Every raw hash of HASH (0..16 RLE symbols per block hash): the routes are ==, hash / order as equal, render identically, are valid, decompress (fresh and dirty destinations, text) to exactly the raw hash, expose its normalization; normalize_in_place gives the dual of the normalized hash; all pairs: a == b <=> raw equal <=> equal order <=> the same bytes fed to the Hasher.",
          "Trusted: refmodel::normalize, the raw hash itself as oracle.",
          "DESIGN.md §4 C07"),
  "C08": ("E-ENUM", "model_checking",
@@ -48,7 +48,7 @@ CHECKS = {
          "DESIGN.md §4 C08"),
  "C09": ("E-ENUM", "model_checking",
          "exhaustive enumeration of all string pairs over small alphabets plus a shared window planted at every pair of offsets, against a naive scan",
-         "ALL ordered pairs over alphabet 2 (|a|<=10,|b|<=12) and 3 (7/8); a 5..8-symbol window planted at every (offset in a, offset in b) for all lengths <= 64 (12.1 M cases); low-entropy all-pairs; a strided subset through FuzzyHashCompareTarget and is_comparison_candidate at all three size relations.",
+         "ALL ordered pairs over alphabet 2 (|a|<=10,|b|<=12) and 3 (7/8); a 5..8-symbol window planted at every (offset in a, offset in b) for all lengths <= 64 (12.1 M cases); low-entropy all-pairs; decoy stretches before / after the real window; every short string against itself; the scoring route (score_strings_raw non-zero <=> common substring) on every normalized pair, and FuzzyHashCompareTarget / is_comparison_candidate / hash-level compare at all three size relations on a strided subset and on all short strings.",
          "Trusted: refmodel::has_common_7gram.",
          "DESIGN.md §4 C09"),
  "C10": ("E-ENUM", "model_checking",
@@ -58,7 +58,7 @@ CHECKS = {
          "DESIGN.md §4 C10"),
  "C11": ("E-STATE", "model_checking",
          "explicit-state search (stateright BFS) over a register file of real objects under ~130 safe operations, depth-bounded, plus a depth-1 sweep of the full constructor menu",
-         "All operation sequences up to depth 3 (thorough 4) over parse / construct (in- and out-of-contract) / normalize / convert into previously used destinations / dual init and expand / target and position-array init / generator results; every register must be valid by the library's check and by the reference predicate in every state; out-of-contract constructor calls may panic but never leave an invalid object.",
+         "All operation sequences up to depth 3 (thorough 4) over parse / construct (in- and out-of-contract) / normalize / convert into previously used destinations / dual init and expand / target and position-array init / generator results; every register must be valid by the library's check and by the reference predicate in every state; out-of-contract constructor calls must panic (as documented) and never leave an invalid object.",
          "Trusted: refmodel::plain_valid.  Depth-bounded (not closed); release and debug-assertion builds.",
          "DESIGN.md §4 C11"),
  "C12": ("E-STATE", "model_checking",
@@ -93,7 +93,7 @@ CHECKS = {
          "DESIGN.md §4 C17"),
  "C18": ("E-FAULT", "fault_enumeration",
          "enumeration of all reader answer scripts with <= 2 deviations (short reads, 6 error kinds) x payload sizes x read policies; real-file cases",
-         "11 k executions: a failing read is returned as that I/O error and no hash; without a failure the reader must be drained to end of stream and the hash is that of the delivered bytes; declared sizes through hook H2; procfs / directory / missing / /dev/null files.",
+         "11 k executions: a failing read is returned as that I/O error and no hash; without a failure the reader must be drained to end of stream and the hash is that of the delivered bytes; declared sizes through hook H2; the error's payload must come back unchanged; procfs / directory / missing / /dev/null files and named pipes.",
          "Trusted: refmodel::ctph; hook H2 (pub forwarder).  The oracle is independent of the implementation's buffer size.",
          "DESIGN.md §4 C18"),
  "C19": ("E-STATE", "model_checking",
